@@ -7,6 +7,7 @@ mkdir -p .build work evidence replays coq/Gen ocaml/gen
 ( cd harness && cargo build --release --offline 2>&1 | tail -3 )
 .build/target/release/vharness tables coq/Gen/Tables.v
 python3 lib/guards.py /repo coq/Gen/Guards.v
+python3 lib/rs2coq.py /repo coq/Gen/Funcs.v
 python3 - <<'PY'
 import importlib.machinery, importlib.util, sys
 l = importlib.machinery.SourceFileLoader('check', 'check'); spec = importlib.util.spec_from_loader('check', l); m = importlib.util.module_from_spec(spec); l.exec_module(m)
